@@ -41,7 +41,9 @@ void set_replay_trace(const uint32_t* pairs, size_t n); // (step,task) pairs
 void set_record_trace(bool on);
 typedef void (*deadlock_handler)(void);
 void set_deadlock_handler(deadlock_handler h);
-void set_budget_verdict(const char* status, const char* cls);   // what exhausting cfg.max_steps means for this harness
+void set_budget_verdict(const char* status, const char* cls);
+void set_context_tag(const char* tag);      // appended to the message of every non-ok result of this run (also crashes)
+const char* context_tag();   // what exhausting cfg.max_steps means for this harness
 typedef void (*finish_hook)(const char* status);   // called before the result is written
 void set_finish_hook(finish_hook h);
 void extra_json(const char* key, const char* json_value); // appended to the result object
